@@ -102,17 +102,17 @@ def stale (n : Nat) (s : State) (t : Tid) : Bool :=
   | .ins _, c :: _ => (List.range n).any (fun t' => (ptrs (s.thr t')).contains c)
   | _, _ => false
 
+def ncomp (s : State) (sid : SId) : Nat := (s.log.filter (fun e => match e with | .complete x _ => x == sid | _ => false)).length
+
 def key (n : Nat) (s : State) : String :=
   let th := (List.range n).map (fun t => let x := s.thr t; s!"{x.prog.length},{x.pos},{repr x.pc},{x.snap}")
   let ob := (List.range s.nextC).map (fun c => let o := s.obj c; s!"{o.key.p}{o.key.d},{o.stream},{o.closed},{o.started},{o.q},{o.mu}")
-  s!"{th}|{s.conns.map (fun (k, c) => (k.p, k.d, c))}|{s.free}|{ob}|{s.nextS}|{(List.range s.nextS).map (fun i => ((s.skey i).p, (s.skey i).d, s.kept i))}|{s.log.length}"
-
-def ncomp (s : State) (sid : SId) : Nat := (s.log.filter (fun e => match e with | .complete x _ => x == sid | _ => false)).length
+  s!"{th}|{s.conns.map (fun (k, c) => (k.p, k.d, c))}|{s.free}|{ob}|{s.nextS}|{(List.range s.nextS).map (fun i => ((s.skey i).p, (s.skey i).d, s.kept i, ncomp s i))}"
 
 def headKey (th : Thread) : Option Key := match th.prog with | .pkt k _ :: _ => some k | _ => none
 
 /-- returns the name of the first violated candidate invariant -/
-def check (n : Nat) (ns : Bool) (s : State) : Option String := Id.run do
+def check (n : Nat) (ns : Bool) (s : State) (only6 : Bool := false) : Option String := Id.run do
   let ts := List.range n
   let cs := List.range s.nextC
   let ss := List.range s.nextS
@@ -158,11 +158,19 @@ def check (n : Nat) (ns : Bool) (s : State) : Option String := Id.run do
       if !(sid < s.nextS) then return some "R1"
       if s.skey sid != o.key then return some "R2"
       if cs.any (fun c' => c' != c && (s.obj c').stream == some sid) then return some "U"
-      if ns then
+      if ns && !only6 then
         if !o.closed && ncomp s sid != 0 then return some "N5"
   for (_, c) in s.conns do if !(c < s.nextC) then return some "S-map"
   for c in s.free do if !(c < s.nextC) then return some "S-free"
-  if ns then
+  if ns && only6 then
+    for sid in ss do
+      if s.kept sid then
+        if ncomp s sid > 1 then return some "N6a"
+        if ncomp s sid == 0 then
+          match s.conns.get (s.skey sid) with
+          | some c => if (s.obj c).stream != some sid || (s.obj c).closed then return some "N6b"
+          | none => return some "N6c"
+  if ns && !only6 then
     for (k, c) in s.conns do
       if (s.obj c).key != k then return some "N1a"
       if s.free.contains c then return some "N1b"
@@ -197,7 +205,7 @@ def check (n : Nat) (ns : Bool) (s : State) : Option String := Id.run do
       | _ => pure ()
   return none
 
-partial def explore (n : Nat) (ns : Bool) (init : State) (maxStates : Nat) : String := Id.run do
+partial def explore (n : Nat) (ns : Bool) (chk : Bool) (only6 : Bool) (init : State) (maxStates : Nat) : String := Id.run do
   let mut seen : Std.HashSet String := {}
   let mut stack : List (State × List Nat) := [(init, [])]
   let mut count := 0
@@ -211,8 +219,8 @@ partial def explore (n : Nat) (ns : Bool) (init : State) (maxStates : Nat) : Str
       if seen.contains k then continue
       seen := seen.insert k
       count := count + 1
-      match check n ns s with
-      | some bad => return s!"violated {bad} after schedule {path.reverse} ({count} states)"
+      match check n chk s only6 with
+      | some bad => if !only6 || bad.startsWith "N6" then return s!"violated {bad} after schedule {path.reverse} ({count} states)"
       | none => pure ()
       let mut any := false
       for t in List.range n do
@@ -244,9 +252,15 @@ def stepPool (d : DSt) (ws : List String) : DSt × String :=
     match m.toNat? with
     | some m =>
       match d.pkg with
-      | .asm => (d, AsmX.explore d.n (nsf == "ns") (Asm.init (progsFn d)) m)
+      | .asm => (d, AsmX.explore d.n (nsf == "ns") (nsf == "ns" || nsf == "chk" || nsf == "n6") (nsf == "n6") (Asm.init (progsFn d)) m)
       | .reasm _ => (d, "todo")
     | none => (d, "bad-op")
+  | "pool" :: "inspect" :: ts =>
+    match natList ts, d.pkg with
+    | some sched, .asm =>
+      let s := runAll Asm.step d.n (Asm.init (progsFn d)) sched
+      (d, s!"{AsmX.check d.n true s true} {AsmX.check d.n true s false} {AsmX.key d.n s}")
+    | _, _ => (d, "bad-op")
   | "pool" :: "sched" :: ts =>
     match natList ts with
     | some sched => if d.n = 0 then (d, "bad-op") else (d, doSched d sched)
